@@ -212,6 +212,14 @@ fn translate_select_pipeline(
         (None, limit.map(expr_of_i64))
     };
 
+    // OFFSET without LIMIT is not accepted by every engine
+    let limit = match (limit, &offset, ctx.dialect.limit_for_bare_offset()) {
+        (None, Some(_), Some(all_rows)) if fetch.is_none() => Some(sql_ast::Expr::Value(
+            sql_ast::Value::Number(all_rows.to_string(), false).into(),
+        )),
+        (limit, _, _) => limit,
+    };
+
     // If we have a FETCH we need to make sure that:
     // - we have an OFFSET (set to 0)
     // - we have an ORDER BY (see https://stackoverflow.com/a/44919325)
